@@ -6,6 +6,7 @@ import (
 	"go/token"
 	"go/types"
 	"regexp"
+	"sort"
 	"strings"
 
 	"golang.org/x/tools/go/packages"
@@ -476,7 +477,8 @@ func init() {
 // exceeds a + q; the library subtracts lazy results from 2q (`x + twoQ - MRedLazy(…)`) and fully reduced ones (MRed,
 // BRed, CRed) from q. Rule: in package ring, no subtraction has a call of a …Lazy reduction primitive as its right
 // operand while the term it is subtracted from (the right-most additive term of the left operand) is the modulus
-// itself (an identifier named modulus/q/qi/Q, or a `.Modulus` selector) rather than a multiple of it.
+// itself (an identifier named modulus/q/qi/Q, or a `.Modulus` selector) rather than a multiple of it. The same holds for
+// the vector elements subtracted in a kernel whose name contains TwoModulus (its operand is in [0, 2q-1] by contract).
 func scanLazySub(c *core.Ctx) []ob {
 	var out []ob
 	n := 0
@@ -502,6 +504,22 @@ func scanLazySub(c *core.Ctx) []ob {
 		ast.Inspect(fd.Body, func(x ast.Node) bool {
 			be, ok := x.(*ast.BinaryExpr)
 			if !ok || be.Op != token.SUB {
+				return true
+			}
+			if _, isIdx := unparen(be.Y).(*ast.IndexExpr); isIdx && strings.Contains(strings.ToLower(fd.Name.Name), "twomodulus") {
+				// a kernel named …TwoModulus… takes its subtrahend in [0, 2q-1] by contract
+				n++
+				l := unparen(be.X)
+				for {
+					if b, ok := l.(*ast.BinaryExpr); ok && b.Op == token.ADD {
+						l = unparen(b.Y)
+						continue
+					}
+					break
+				}
+				if isModulus(l) && first == nil {
+					first = be
+				}
 				return true
 			}
 			call, ok := unparen(be.Y).(*ast.CallExpr)
@@ -1017,6 +1035,115 @@ func init() {
 			out := scanCRedForm(c)
 			out = append(out, control(c, "CREDFORM", scanCRedForm, "lvfixture.credRaw")...)
 			out = append(out, core.Floor("CREDFORM", nil, "CRed calls outside the kernels", c.Stats["credform_sites"], 8)...)
+			return out
+		}})
+}
+
+// KERNELUNIQ — two different arithmetic methods are not wired to the same kernel.
+//
+// Every SubRing method is a one-line dispatch to a vector kernel (`s.MulCoeffsMontgomeryThenSubLazy` →
+// `mulcoeffsmontgomerythensublazyvec(p1, p2, p3, s.Modulus, s.MRedConstant)`). Dispatching two distinct methods — with
+// distinct documented ranges — to one kernel with the same arguments makes them the same function: at most one of the
+// two contracts holds. (Wiring the strict-product variant to the lazy-product kernel only shows when the accumulator is
+// near the top of its range.)
+//
+// Rule: among the methods of package ring whose body is a single call of a package-level function of that package, no
+// two methods call the same function with the same arguments (parameters compared by position).
+func scanKernelUniq(c *core.Ctx) []ob {
+	var out []ob
+	type site struct {
+		fkey string
+		pos  token.Pos
+	}
+	groups := map[string][]site{}
+	n := 0
+	c.FuncDecls(func(pk *packages.Package, file *ast.File, fd *ast.FuncDecl) {
+		rel := core.ShortPkg(pk.PkgPath)
+		if fd.Body == nil || fd.Recv == nil || fileIsTestSupport(c.Program, fd.Pos()) || !(c.IsFixture || rel == "ring") || len(fd.Body.List) != 1 {
+			return
+		}
+		es, ok := fd.Body.List[0].(*ast.ExprStmt)
+		if !ok {
+			return
+		}
+		call, ok := es.X.(*ast.CallExpr)
+		if !ok {
+			return
+		}
+		info := pk.TypesInfo
+		fn := calleeFunc(info, call)
+		if fn == nil || fn.Pkg() != pk.Types || fn.Type().(*types.Signature).Recv() != nil {
+			return
+		}
+		if c.IsFixture && !strings.HasSuffix(fn.Name(), "vec") {
+			return
+		}
+		// parameters by position
+		pos := map[types.Object]string{}
+		i := 0
+		for _, f := range fd.Recv.List {
+			for _, nm := range f.Names {
+				pos[info.Defs[nm]] = "#recv"
+			}
+		}
+		for _, f := range fd.Type.Params.List {
+			for _, nm := range f.Names {
+				pos[info.Defs[nm]] = fmt.Sprintf("#%d", i)
+				i++
+			}
+		}
+		var args []string
+		for _, a := range call.Args {
+			str := exprString(a)
+			ast.Inspect(a, func(x ast.Node) bool {
+				if id, ok := x.(*ast.Ident); ok {
+					if p, ok := pos[info.Uses[id]]; ok {
+						str = regexp.MustCompile(`\b`+regexp.QuoteMeta(id.Name)+`\b`).ReplaceAllString(str, p)
+					}
+				}
+				return true
+			})
+			args = append(args, str)
+		}
+		n++
+		recv := ""
+		if len(fd.Recv.List) > 0 {
+			recv = exprString(fd.Recv.List[0].Type)
+		}
+		g := recv + "|" + fn.Name() + "(" + strings.Join(args, ",") + ")"
+		groups[g] = append(groups[g], site{core.FuncKey(pk, fd), fd.Pos()})
+	})
+	var keys []string
+	for g := range groups {
+		keys = append(keys, g)
+	}
+	sort.Strings(keys)
+	for _, g := range keys {
+		ss := groups[g]
+		if len(ss) < 2 {
+			continue
+		}
+		sort.Slice(ss, func(i, j int) bool { return ss[i].fkey < ss[j].fkey })
+		var names []string
+		for _, s := range ss {
+			names = append(names, s.fkey)
+		}
+		out = append(out, violOb("KERNELUNIQ", "KERNELUNIQ:"+strings.Join(names, "="), c.Rel(ss[0].pos), fmt.Sprintf("%s are all the single call %s: distinct operations with distinct documented ranges cannot be the same function", strings.Join(names, " and "), g[strings.Index(g, "|")+1:])))
+	}
+	c.Stats["kerneluniq_sites"] = n
+	if !c.IsFixture {
+		out = append(out, okOb("KERNELUNIQ", "KERNELUNIQ:summary", "", fmt.Sprintf("%d one-call dispatch methods of package ring examined: no two share kernel and arguments", n), true))
+	}
+	return out
+}
+
+func init() {
+	core.Register(&core.Rule{Name: "KERNELUNIQ", Props: []string{"C01"},
+		Doc: "among the methods of package ring whose body is a single call of a package-level function, no two (of the same receiver type) call the same function with the same arguments, parameters compared by position",
+		Run: func(c *core.Ctx) []ob {
+			out := scanKernelUniq(c)
+			out = append(out, control(c, "KERNELUNIQ", scanKernelUniq, "toyRing")...)
+			out = append(out, core.Floor("KERNELUNIQ", nil, "one-call dispatch methods of package ring", c.Stats["kerneluniq_sites"], 30)...)
 			return out
 		}})
 }
